@@ -20,10 +20,21 @@ package main
 //           rounds; some names pre-registered, some goroutines asking for a second fresh name), then
 //           the names again sequentially: all instances for one name must be one object, and options
 //           applied through the registry (ApplyOptionsToLoggers) must reach every instance returned.
+//   cryptoconc  every package-level entry point of crypto from N goroutines with their own keys: all RSA
+//           encryption algorithms (PKCS1v15, OAEP with the four digests, labels up to 64 KiB), all ten
+//           signature algorithms, all symmetric algorithms; judged against results obtained alone.
+//   logapi  (child process, so that a runtime "fatal error" becomes a failing case) the logger API as a
+//           whole: NewLogger of fresh shared/own names concurrently with logging calls, then concurrently
+//           with ApplyOptionsToLoggers.
 //   race    (supporting test) the conc mode rebuilt with -race and run as a child process.
 
 import (
 	"bytes"
+	"crypto/ecdsa"
+	"crypto/ed25519"
+	"crypto/elliptic"
+	crand "crypto/rand"
+	"crypto/rsa"
 	"encoding/json"
 	"errors"
 	"fmt"
@@ -1234,6 +1245,561 @@ func c08RegRace(ctx *core.Ctx, in c08Input) {
 }
 
 // ---------------------------------------------------------------------------------------
+// crypto: every package-level entry point, concurrently, against results obtained alone
+
+var (
+	rsaKeysOnce sync.Once
+	rsaKeys     []jwk.Key
+)
+
+func rsaKey(i int) jwk.Key {
+	rsaKeysOnce.Do(func() {
+		for k := 0; k < 4; k++ {
+			pk, err := rsa.GenerateKey(crand.Reader, 2048)
+			if err != nil {
+				panic(err)
+			}
+			j, err := jwk.FromRaw(pk)
+			if err != nil {
+				panic(err)
+			}
+			rsaKeys = append(rsaKeys, j)
+		}
+	})
+	return rsaKeys[i%len(rsaKeys)]
+}
+
+var rsaEncAlgs = []string{"RSA1_5", "RSA-OAEP", "RSA-OAEP-256", "RSA-OAEP-384", "RSA-OAEP-512"}
+var sigAlgs = []string{"RS256", "RS384", "RS512", "PS256", "PS384", "PS512", "ES256", "ES384", "ES512", "EdDSA"}
+var symAlgs = kitcrypto.SupportedSymmetricAlgorithms()
+
+type cryptoJob struct {
+	kind  int // 0 asym enc, 1 sign, 2 symmetric
+	alg   string
+	key   jwk.Key
+	msg   []byte
+	label []byte
+	nonce []byte
+	// obtained alone, before the goroutines start
+	soloCT  [][]byte // ciphertexts made alone
+	soloSig []byte
+	soloSym string
+	// obtained concurrently
+	concCT [][]byte
+	result string
+}
+
+func symNonce(alg string, r *hx.Rand) []byte {
+	switch {
+	case strings.HasPrefix(alg, "XC20P"):
+		return r.Bytes(24)
+	case strings.HasPrefix(alg, "C20P"), strings.HasSuffix(alg, "GCM"):
+		return r.Bytes(12)
+	case strings.Contains(alg, "KW"):
+		return nil
+	}
+	return r.Bytes(16)
+}
+
+func symResult(j *cryptoJob) string {
+	ct, tag, err := kitcrypto.Encrypt(j.msg, j.alg, j.key, j.nonce, j.label)
+	if err != nil {
+		return "err:" + err.Error()
+	}
+	back, err := kitcrypto.Decrypt(ct, j.alg, j.key, j.nonce, tag, j.label)
+	if err != nil || !bytes.Equal(back, j.msg) {
+		return fmt.Sprintf("bad-roundtrip(%v)", err)
+	}
+	return fmt.Sprintf("%x|%x", ct, tag)
+}
+
+func digestLen(alg string) int {
+	switch alg[len(alg)-3:] {
+	case "384":
+		return 48
+	case "512":
+		return 64
+	}
+	return 32
+}
+
+func sigKey(alg string, w int) jwk.Key {
+	var raw any
+	switch alg {
+	case "ES256":
+		raw, _ = ecdsa.GenerateKey(elliptic.P256(), crand.Reader)
+	case "ES384":
+		raw, _ = ecdsa.GenerateKey(elliptic.P384(), crand.Reader)
+	case "ES512":
+		raw, _ = ecdsa.GenerateKey(elliptic.P521(), crand.Reader)
+	case "EdDSA":
+		_, priv, _ := ed25519.GenerateKey(crand.Reader)
+		raw = priv
+	default:
+		return rsaKey(w)
+	}
+	k, err := jwk.FromRaw(raw)
+	if err != nil {
+		panic(err)
+	}
+	return k
+}
+
+const encsPerJob = 12
+
+func safely(f func() string) (res string) {
+	defer func() {
+		if r := recover(); r != nil {
+			res = "panic: " + fmt.Sprint(r)
+		}
+	}()
+	return f()
+}
+
+// concurrent part of one job; every deviation from what the same call gives alone is a note
+func (j *cryptoJob) run() (res string) {
+	defer func() {
+		if r := recover(); r != nil {
+			res = "panic: " + fmt.Sprint(r)
+		}
+	}()
+	switch j.kind {
+	case 0:
+		pub, _ := j.key.PublicKey()
+		// ciphertexts made alone must decrypt now
+		for _, ct := range j.soloCT {
+			pt, err := kitcrypto.Decrypt(ct, j.alg, j.key, nil, nil, j.label)
+			if err != nil || !bytes.Equal(pt, j.msg) {
+				return fmt.Sprintf("a ciphertext made alone does not decrypt concurrently: %v", err)
+			}
+		}
+		// many public-key operations (cheap, hash-heavy with long labels); decrypted after the join
+		for k := 0; k < encsPerJob; k++ {
+			ct, _, err := kitcrypto.Encrypt(j.msg, j.alg, pub, nil, j.label)
+			if err != nil {
+				return "encrypt: " + err.Error()
+			}
+			j.concCT = append(j.concCT, ct)
+		}
+		pt, err := kitcrypto.Decrypt(j.concCT[0], j.alg, j.key, nil, nil, j.label)
+		if err != nil || !bytes.Equal(pt, j.msg) {
+			return fmt.Sprintf("round trip: %v", err)
+		}
+	case 1:
+		var sig []byte
+		for rep := 0; rep < 4; rep++ {
+			var err error
+			sig, err = kitcrypto.SignPrivateKey(j.msg, j.alg, j.key)
+			if err != nil {
+				return "sign: " + err.Error()
+			}
+			if strings.HasPrefix(j.alg, "RS") || j.alg == "EdDSA" {
+				if !bytes.Equal(sig, j.soloSig) {
+					return "deterministic signature differs from the one made alone"
+				}
+			}
+			if ok, err := kitcrypto.VerifyPublicKey(j.msg, sig, j.alg, j.key); err != nil || !ok {
+				return fmt.Sprintf("own signature rejected: %v", err)
+			}
+		}
+		for _, sg := range [][]byte{sig, j.soloSig} {
+			ok, err := kitcrypto.VerifyPublicKey(j.msg, sg, j.alg, j.key)
+			if err != nil || !ok {
+				return fmt.Sprintf("valid signature rejected: %v", err)
+			}
+		}
+		bad := append([]byte(nil), sig...)
+		bad[len(bad)/2] ^= 0x40
+		if ok, _ := kitcrypto.VerifyPublicKey(j.msg, bad, j.alg, j.key); ok {
+			return "tampered signature accepted"
+		}
+	case 2:
+		if got := symResult(j); got != j.soloSym {
+			return "symmetric result differs from the one obtained alone"
+		}
+	}
+	return ""
+}
+
+func runCryptoConc(in c08Input) (classes []string, notes []string) {
+	r := hx.NewRand(in.Seed)
+	jobs := make([][]*cryptoJob, in.Workers)
+	// every round all workers are inside the SAME family of entry points at the same time (barrier per
+	// round): one OAEP digest, mixed RSA encryption, RS*, PS*, ES*, EdDSA, symmetric
+	type family struct {
+		kind int
+		algs []string
+	}
+	oaepOne := rsaEncAlgs[1+r.Intn(4)]
+	families := []family{{0, []string{oaepOne}}, {0, rsaEncAlgs}, {1, sigAlgs[0:3]}, {1, sigAlgs[3:6]}, {1, sigAlgs[6:9]}, {1, sigAlgs[9:10]}, {2, symAlgs}}
+	off := r.Intn(len(families))
+	for w := range jobs {
+		for k := 0; k < in.Rounds; k++ {
+			fam := families[(k+off)%len(families)]
+			j := &cryptoJob{kind: fam.kind}
+			switch j.kind {
+			case 0:
+				j.alg = fam.algs[r.Intn(len(fam.algs))]
+				j.key = rsaKey(w)
+				j.msg = r.Bytes(r.Range(1, 60))
+				if j.alg != "RSA1_5" {
+					j.label = r.Bytes([]int{0, 100, 8 << 10, 64 << 10}[r.Intn(4)])
+				}
+				j.result = safely(func() string {
+					for i := 0; i < 2; i++ {
+						pub, _ := j.key.PublicKey()
+						ct, _, err := kitcrypto.Encrypt(j.msg, j.alg, pub, nil, j.label)
+						if err != nil {
+							return "alone: encrypt: " + err.Error()
+						}
+						pt, err := kitcrypto.Decrypt(ct, j.alg, j.key, nil, nil, j.label)
+						if err != nil || !bytes.Equal(pt, j.msg) {
+							return fmt.Sprintf("alone: round trip: %v", err)
+						}
+						j.soloCT = append(j.soloCT, ct)
+					}
+					return ""
+				})
+			case 1:
+				j.alg = fam.algs[r.Intn(len(fam.algs))]
+				j.key = sigKey(j.alg, w)
+				if j.alg == "EdDSA" {
+					j.msg = r.Bytes(r.Range(1, 300))
+				} else {
+					j.msg = r.Bytes(digestLen(j.alg))
+				}
+				j.result = safely(func() string {
+					sig, err := kitcrypto.SignPrivateKey(j.msg, j.alg, j.key)
+					if err != nil {
+						return "alone: sign: " + err.Error()
+					}
+					j.soloSig = sig
+					return ""
+				})
+			case 2:
+				j.alg = fam.algs[r.Intn(len(fam.algs))]
+				ks := 32
+				switch {
+				case strings.Contains(j.alg, "128") && !strings.Contains(j.alg, "HS"):
+					ks = 16
+				case strings.Contains(j.alg, "192") && !strings.Contains(j.alg, "HS"):
+					ks = 24
+				case strings.HasSuffix(j.alg, "HS384"):
+					ks = 48
+				case strings.HasSuffix(j.alg, "HS512"):
+					ks = 64
+				}
+				j.key, _ = jwk.FromRaw(r.Bytes(ks))
+				j.msg = r.Bytes(32)
+				j.nonce = symNonce(j.alg, r)
+				j.label = r.Bytes(r.Range(0, 64))
+				j.result = safely(func() string { j.soloSym = symResult(j); return "" })
+			}
+			jobs[w] = append(jobs[w], j)
+		}
+	}
+	var wg sync.WaitGroup
+	arrived := make([]atomic.Int32, in.Rounds)
+	for w := range jobs {
+		wg.Add(1)
+		go func(w int) {
+			defer wg.Done()
+			for k, j := range jobs[w] {
+				arrived[k].Add(1)
+				for arrived[k].Load() < int32(len(jobs)) {
+					runtime.Gosched()
+				}
+				if j.result == "" { // else: the call already went wrong alone
+					j.result = j.run()
+				}
+			}
+		}(w)
+	}
+	wg.Wait()
+	// ciphertexts made concurrently must decrypt alone
+	for w := range jobs {
+		for k, j := range jobs[w] {
+			if j.result == "" && j.kind == 0 {
+				j.result = safely(func() string {
+					for _, ct := range j.concCT {
+						pt, err := kitcrypto.Decrypt(ct, j.alg, j.key, nil, nil, j.label)
+						if err != nil || !bytes.Equal(pt, j.msg) {
+							return fmt.Sprintf("a ciphertext made concurrently does not decrypt: %v", err)
+						}
+					}
+					return ""
+				})
+			}
+			if j.result == "" {
+				classes = append(classes, "Same")
+			} else {
+				cl := "Differs"
+				if strings.HasPrefix(j.result, "panic") {
+					cl = "Panicked"
+				}
+				classes = append(classes, cl)
+				notes = append(notes, fmt.Sprintf("worker %d job %d %s (label %d bytes): %s", w, k, j.alg, len(j.label), j.result))
+			}
+		}
+	}
+	return
+}
+
+func c08CryptoConc(ctx *core.Ctx, in c08Input) {
+	classes, notes := runCryptoConc(in)
+	c := hx.Case{Kind: "cryptoconc", Input: hx.MustJSON(in), Facts: map[string]any{},
+		Class: fmt.Sprintf("cryptoconc/%d/%d/%d", in.Workers, in.Rounds, in.Seed), Trivial: in.Workers < 2,
+		Observed: map[string]any{"results": len(classes), "notes": notes}, Coq: "CObs " + coqClasses(classes)}
+	if len(notes) > 0 {
+		if len(notes) > 6 {
+			notes = notes[:6]
+		}
+		c.Note = strings.Join(notes, "; ")
+	}
+	ctx.Sink.Count("kind=cryptoconc")
+	ctx.Sink.Add(c)
+}
+
+// ---------------------------------------------------------------------------------------
+// the logger API as a whole (runs in a child process: see c08LogAPI)
+
+type logAPIResult struct {
+	Names   []int    `json:"names"`
+	IDs     []int    `json:"ids"`
+	Reached []bool   `json:"reached"`
+	LogOK   []bool   `json:"log_ok"`
+	Notes   []string `json:"notes,omitempty"`
+}
+
+type lockedBuf struct {
+	mu sync.Mutex
+	b  bytes.Buffer
+}
+
+func (l *lockedBuf) Write(p []byte) (int, error) {
+	l.mu.Lock()
+	defer l.mu.Unlock()
+	return l.b.Write(p)
+}
+
+func runLogAPI(in c08Input) logAPIResult {
+	W, R := in.Workers, in.Rounds
+	var res logAPIResult
+	var mu sync.Mutex
+	var pairs []regPair
+	name := func(n int) string { return fmt.Sprintf("c08api/%d/%d", in.Seed, n) }
+	record := func(local []regPair) {
+		mu.Lock()
+		pairs = append(pairs, local...)
+		mu.Unlock()
+	}
+	res.LogOK = make([]bool, W)
+	phase := func(ph int, applier bool) {
+		var wg sync.WaitGroup
+		var running atomic.Int32
+		running.Store(int32(W))
+		for w := 0; w < W; w++ {
+			wg.Add(1)
+			go func(w int) {
+				defer wg.Done()
+				defer running.Add(-1)
+				var local []regPair
+				var own logger.Logger
+				var out lockedBuf
+				if ph == 1 {
+					// this goroutine's own logger: nobody else asks for this name
+					own = logger.NewLogger(name(1000000 + w))
+					own.SetOutput(&out)
+				}
+				for k := 0; k < R; k++ {
+					shared := ph*100000 + k // every worker asks for it
+					mine := ph*100000 + 50000 + w*R + k
+					local = append(local, regPair{shared, logger.NewLogger(name(shared))}, regPair{mine, logger.NewLogger(name(mine))})
+					if own != nil {
+						own.Info("i", k)
+						own.Infof("f%d", k)
+						own.WithFields(map[string]any{"w": w}).Warn("w", k)
+						own.Debug("suppressed", k)
+					}
+				}
+				if own != nil {
+					out.mu.Lock()
+					txt := out.b.String()
+					out.mu.Unlock()
+					lines := strings.Split(strings.TrimSpace(txt), "\n")
+					ok := len(lines) == 3*R
+					for _, ln := range lines {
+						if !strings.Contains(ln, name(1000000+w)) || strings.Contains(ln, "suppressed") {
+							ok = false
+						}
+					}
+					res.LogOK[w] = ok
+				}
+				record(local)
+			}(w)
+		}
+		if applier {
+			// ONE goroutine keeps applying options through the registry while names are being registered
+			wg.Add(1)
+			go func() {
+				defer wg.Done()
+				lv := []string{"debug", "warn", "info", "error"}
+				for i := 0; running.Load() > 0 && i < 100000; i++ {
+					opts := logger.DefaultOptions()
+					_ = opts.SetOutputLevel(lv[i%len(lv)])
+					opts.JSONFormatEnabled = i%2 == 0
+					_ = logger.ApplyOptionsToLoggers(&opts)
+				}
+			}()
+		}
+		wg.Wait()
+	}
+	phase(1, false) // registrations concurrent with logging calls
+	phase(2, true)  // registrations concurrent with ApplyOptionsToLoggers
+	// the same names again, alone
+	seen := map[regPair]bool{}
+	var distinct []regPair
+	for _, p := range pairs {
+		if !seen[p] {
+			seen[p] = true
+			distinct = append(distinct, p)
+		}
+	}
+	byName := map[int]bool{}
+	for _, p := range distinct {
+		if !byName[p.name] {
+			byName[p.name] = true
+			q := regPair{p.name, logger.NewLogger(name(p.name))}
+			if !seen[q] {
+				seen[q] = true
+				distinct = append(distinct, q)
+			}
+		}
+	}
+	res.Reached = regReached(distinct)
+	ids := map[logger.Logger]int{}
+	for _, p := range distinct {
+		id, ok := ids[p.lg]
+		if !ok {
+			id = len(ids)
+			ids[p.lg] = id
+		}
+		res.Names = append(res.Names, p.name)
+		res.IDs = append(res.IDs, id)
+	}
+	return res
+}
+
+func (r logAPIResult) ok() bool {
+	byName := map[int]int{}
+	for i, n := range r.Names {
+		if id, ok := byName[n]; ok && id != r.IDs[i] {
+			return false
+		}
+		byName[n] = r.IDs[i]
+	}
+	for _, b := range append(append([]bool{}, r.Reached...), r.LogOK...) {
+		if !b {
+			return false
+		}
+	}
+	return true
+}
+
+// logAPIChild: C08_CHILD=logapi, input in C08_CHILD_INPUT, result written to C08_CHILD_OUT.
+func logAPIChild() {
+	var in c08Input
+	if err := json.Unmarshal([]byte(os.Getenv("C08_CHILD_INPUT")), &in); err != nil {
+		fmt.Fprintln(os.Stderr, err)
+		os.Exit(2)
+	}
+	res := runLogAPI(in)
+	b, _ := json.Marshal(res)
+	if err := os.WriteFile(os.Getenv("C08_CHILD_OUT"), b, 0o644); err != nil {
+		fmt.Fprintln(os.Stderr, err)
+		os.Exit(2)
+	}
+	os.Exit(0)
+}
+
+func c08LogAPI(ctx *core.Ctx, in c08Input) {
+	c := hx.Case{Kind: "logapi", Input: hx.MustJSON(in), Facts: map[string]any{},
+		Class: fmt.Sprintf("logapi/%d/%d/%d", in.Workers, in.Rounds, in.Seed), Trivial: in.Workers < 2}
+	ctx.Sink.Count("kind=logapi")
+	exe, err := os.Executable()
+	if err != nil {
+		panic(err)
+	}
+	tmp, err := os.MkdirTemp("", "c08child")
+	if err != nil {
+		panic(err)
+	}
+	defer os.RemoveAll(tmp)
+	outPath := filepath.Join(tmp, "result.json")
+	cmd := exec.Command(exe)
+	cmd.Env = append(os.Environ(), "C08_CHILD=logapi", "C08_CHILD_INPUT="+string(hx.MustJSON(in)), "C08_CHILD_OUT="+outPath)
+	out, err := cmd.CombinedOutput()
+	var res logAPIResult
+	if err == nil {
+		b, rerr := os.ReadFile(outPath)
+		if rerr != nil || json.Unmarshal(b, &res) != nil {
+			err = fmt.Errorf("child wrote no result")
+		}
+	}
+	if err != nil {
+		// the process died (runtime fatal error: concurrent map access, ...): the input is the failing case
+		txt := string(out)
+		if i := strings.Index(txt, "fatal error"); i >= 0 {
+			txt = txt[i:]
+		}
+		if len(txt) > 600 {
+			txt = txt[:600]
+		}
+		c.Direct = 2
+		c.Note = "the process running independent logger calls died: " + err.Error() + ": " + txt
+		c.Observed = map[string]any{"child": err.Error()}
+		ctx.Sink.Add(c)
+		return
+	}
+	// the model gets every pair of a name that came back with two loggers, and the first 300 others
+	// (logger ids renumbered in order of appearance, as the registry model numbers them)
+	count := map[int]map[int]bool{}
+	for i, n := range res.Names {
+		if count[n] == nil {
+			count[n] = map[int]bool{}
+		}
+		count[n][res.IDs[i]] = true
+	}
+	var items []string
+	renum := map[int]int{}
+	plain := 0
+	for i, n := range res.Names {
+		if len(count[n]) < 2 {
+			if plain >= 300 {
+				continue
+			}
+			plain++
+		}
+		id, ok := renum[res.IDs[i]]
+		if !ok {
+			id = len(renum)
+			renum[res.IDs[i]] = id
+		}
+		items = append(items, fmt.Sprintf("(%s, %s)", hx.CoqZ(int64(n)), hx.CoqZ(int64(id))))
+	}
+	var bs []string
+	for _, b := range append(append([]bool{}, res.Reached...), res.LogOK...) {
+		bs = append(bs, hx.CoqBool(b))
+	}
+	c.Observed = map[string]any{"pairs": len(res.Names), "loggers": len(res.Reached), "log_ok": res.LogOK}
+	c.Coq = fmt.Sprintf("CRegApply %s %s", hx.CoqList(items), hx.CoqList(bs))
+	if !res.ok() {
+		c.Note = "two loggers for one name, a logger not reached by ApplyOptionsToLoggers, or a logger's output is not exactly its own lines"
+	}
+	ctx.Sink.Add(c)
+}
+
+// ---------------------------------------------------------------------------------------
 // supporting test: the concurrent mode under the race detector (child process)
 
 func raceChild() {
@@ -1252,6 +1818,14 @@ func raceChild() {
 		pairs := regRaceBatch(seed+uint64(i), 12, 150)
 		if !regRaceOK(pairs, regReached(pairs)) {
 			fmt.Fprintln(os.Stderr, "registry handed out two loggers for one name / an orphan logger under -race")
+			os.Exit(3)
+		}
+		if _, notes := runCryptoConc(c08Input{Workers: 8, Rounds: 6, Seed: seed + uint64(i)}); len(notes) > 0 {
+			fmt.Fprintln(os.Stderr, "crypto result mismatch under -race:", notes)
+			os.Exit(3)
+		}
+		if res := runLogAPI(c08Input{Workers: 4, Rounds: 150, Seed: seed + uint64(i)}); !res.ok() {
+			fmt.Fprintln(os.Stderr, "logger API mismatch under -race")
 			os.Exit(3)
 		}
 	}
@@ -1315,6 +1889,10 @@ func c08Run(ctx *core.Ctx, in c08Input) {
 		c08CronSeq(ctx, in)
 	case "poolseq":
 		c08PoolSeq(ctx, in)
+	case "cryptoconc":
+		c08CryptoConc(ctx, in)
+	case "logapi":
+		c08LogAPI(ctx, in)
 	case "race":
 		c08Race(ctx)
 	default:
@@ -1461,6 +2039,14 @@ func c08Gen(ctx *core.Ctx) {
 	for k := 0; k < 6*mult; k++ {
 		c08Run(ctx, c08Input{Kind: "conc", Workers: r.Range(4, 12), Rounds: r.Range(15, 40), Seed: r.U64()})
 	}
+	// every crypto entry point from several goroutines with their own keys
+	for k := 0; k < 5*mult; k++ {
+		c08Run(ctx, c08Input{Kind: "cryptoconc", Workers: []int{4, 8, 12, 16, 8}[k%5], Rounds: 8, Seed: r.U64()})
+	}
+	// the logger API as a whole, in a child process
+	for k := 0; k < 4*mult; k++ {
+		c08Run(ctx, c08Input{Kind: "logapi", Workers: []int{2, 4, 8, 4}[k%4], Rounds: []int{400, 250, 150, 600}[k%4], Seed: r.U64()})
+	}
 	// sequences of ParseStandard calls over descriptors / aliases / time zones, schedules kept
 	for k := 0; k < 30*mult; k++ {
 		names := make([]int, r.Range(2, 10))
@@ -1484,6 +2070,10 @@ func c08Gen(ctx *core.Ctx) {
 func main() {
 	if os.Getenv("C08_RACE_CHILD") != "" {
 		raceChild()
+		return
+	}
+	if os.Getenv("C08_CHILD") == "logapi" {
+		logAPIChild()
 		return
 	}
 	core.Main("c08", &core.Prop{
